@@ -47,4 +47,11 @@ def main():
         c03_cmp = None
     if c03_cmp is not None:
         c03_cmp.run(R)
+    # wrapper lifecycle (Participate / Propose / handle over the life of duties): props/c03_wrapper.py
+    try:
+        import c03_wrapper
+    except ImportError:
+        c03_wrapper = None
+    if c03_wrapper is not None:
+        c03_wrapper.run(R)
     R.finish()
